@@ -8,7 +8,7 @@ the first inspection of a resync token ends the path with the pseudo outcome
 ('noreturn', '@resume', [token]).  One path is therefore one transition of the
 scanner's state machine on a generic occurrence of the directive, not a test run.
 """
-from .interp import Interp, Obj, Sym, Term, View, Cell, NoReturn, Infeasible, NeedChoice, Unsupported, _Ref
+from .interp import Interp, Obj, Sym, View, Cell, NoReturn, NeedChoice, Unsupported, _Ref
 from .build import AnalysisBroken
 
 RESUME = '@resume'
